@@ -31,6 +31,7 @@ type specEnv struct {
 	// collected while evaluating
 	newFacts []*QFact
 	rc       *rootCtx
+	freshAlloc func() *Term
 }
 
 func specErr(f string, a ...interface{}) { panic(Unsupported{"spec: " + fmt.Sprintf(f, a...)}) }
@@ -507,7 +508,7 @@ func (env *specEnv) binary(t *ast.BinaryExpr) SVal {
 		case Slice:
 			r = c.IsNil(v.P)
 		case Iface:
-			r = c.Eq(v.Typ, c.Const(32, 0))
+			r = c.Eq(v.Typ, c.Const(TypW, 0))
 		case FuncV:
 			r = c.IsNil(v.P)
 		default:
@@ -526,6 +527,11 @@ func (env *specEnv) binary(t *ast.BinaryExpr) SVal {
 	}
 	switch t.Op {
 	case token.EQL, token.NEQ:
+		if sa, ok := a.V.(Scalar); ok {
+			if sb, ok := b.V.(Scalar); ok && sa.T.S != sb.T.S {
+				specErr("operand types differ in %s: %s vs %s", types.ExprString(t), a.T, b.T)
+			}
+		}
 		st := &State{heap: *env.heap}
 		r := env.e.eqValues(st, a.V, b.V, a.T, b.T)
 		if t.Op == token.NEQ {
@@ -675,19 +681,39 @@ func (env *specEnv) call(t *ast.CallExpr) SVal {
 			specErr("fresh() of %T", v.V)
 		}
 		if env.assume {
+			if env.freshAlloc != nil {
+				return SVal{V: Scalar{T: c.Eq(r, env.freshAlloc())}, T: boolT}
+			}
 			return SVal{V: Scalar{T: c.Eq(r, env.e.newRegion())}, T: boolT}
 		}
-		return SVal{V: Scalar{T: c.Uge(r, c.Const(32, FreshBase))}, T: boolT}
+		return SVal{V: Scalar{T: c.Uge(r, c.Const(RgnW, FreshBase))}, T: boolT}
 	case "same":
 		// same backing pointer
 		a, b := env.eval(t.Args[0]), env.eval(t.Args[1])
 		return SVal{V: Scalar{T: c.PtrEq(dataPtr(a.V), dataPtr(b.V))}, T: boolT}
+	case "disjoint":
+		// the memory spans of two slices/strings do not overlap (cap-extent for slices)
+		a, b := env.eval(t.Args[0]), env.eval(t.Args[1])
+		ar, alo, ahi := env.span(a)
+		br, blo, bhi := env.span(b)
+		return SVal{V: Scalar{T: c.Or(c.Ne(ar, br), c.Ule(ahi, blo), c.Ule(bhi, alo))}, T: boolT}
 	case "sameregion":
 		a, b := env.eval(t.Args[0]), env.eval(t.Args[1])
 		return SVal{V: Scalar{T: c.Eq(regionOf(a.V), regionOf(b.V))}, T: boolT}
 	case "offset":
 		a := env.eval(t.Args[0])
 		return SVal{V: Scalar{T: dataPtr(a.V).O}, T: intT}
+	case "bits":
+		v := env.eval(t.Args[0])
+		w, _, ok := intInfo(v.T)
+		if !ok {
+			specErr("bits() of %s", v.T)
+		}
+		ut := types.Typ[types.Uint64]
+		if w == 32 {
+			ut = types.Typ[types.Uint32]
+		}
+		return SVal{V: Scalar{T: v.V.(Scalar).T}, T: ut}
 	case "zx":
 		// zero-extend to int
 		v := env.eval(t.Args[0])
@@ -724,6 +750,20 @@ func (env *specEnv) call(t *ast.CallExpr) SVal {
 	}
 	specErr("unknown function %q in specification", name)
 	return SVal{}
+}
+
+// span: region and byte extent [lo, hi) of a slice (by length) or string.
+func (env *specEnv) span(v SVal) (r, lo, hi *Term) {
+	c := env.c()
+	switch x := v.V.(type) {
+	case Slice:
+		es := uint64(sizeof(v.T.Underlying().(*types.Slice).Elem()))
+		return x.P.R, x.P.O, c.Add(x.P.O, c.Mul(x.Len, c.Const(64, es)))
+	case Str:
+		return x.P.R, x.P.O, c.Add(x.P.O, x.Len)
+	}
+	specErr("span of %T", v.V)
+	return
 }
 
 type quantMark struct {
